@@ -991,6 +991,10 @@ class ExprMixin:
         elif isinstance(it, VList):
             x = sel(it.elems, q)
             length = it.length
+        elif isinstance(it, VSet):
+            # a set is visited in an arbitrary order, every member exactly once: the (unknown) duplicate-free enumeration
+            length, el_at = self.set_iter_plan(it, node, st)
+            x = el_at(q)
         elif type(it).__name__ == "VDictView" and it.d.order is not None:
             # a dict view iterates in insertion order of the keys (language guarantee)
             key = sel(it.d.order.elems, q)
